@@ -97,9 +97,9 @@ def build_instrument(spec):
     return i
 
 
-def build_track(td):
+def build_track(td, instrument=None):
     from mingus.containers import Track
-    t = Track(build_instrument(td["instr"]))
+    t = Track(instrument if instrument is not None else build_instrument(td["instr"]))
     if td.get("name") is not None:
         t.name = td["name"]
     for bd in td["bars"]:
@@ -112,6 +112,13 @@ def build_comp(cd):
     c = Composition()
     c.set_title(cd.get("title", "Untitled"), cd.get("subtitle", ""))
     c.set_author(cd.get("author", ""), "")
+    shared = {}
     for td in cd["tracks"]:
-        c.add_track(build_track(td))
+        instr = None
+        if cd.get("share_instruments") and td["instr"] is not None:
+            key = repr(sorted(td["instr"].items()))
+            if key not in shared:
+                shared[key] = build_instrument(td["instr"])
+            instr = shared[key]
+        c.add_track(build_track(td, instr))
     return c
